@@ -66,7 +66,7 @@ Fixpoint text (W : world) (ft : Z -> str) (lvl : nat) (v : value) {struct v} : s
   | VDuration d => lit "XmlDuration(" ++ dq d ++ lit ")"
   | VPeriod d => lit "XmlPeriod(" ++ dq d ++ lit ")"
   | VStd k args => lit "datetime." ++ std_name k ++ lit "(" ++ args_text (std_repr_args k args) ++ lit ")"
-  | VEnum c m => last (snd c) [] ++ lit "." ++ m
+  | VEnum c m => join (lit ".") (snd c) ++ lit "." ++ m
   | VList l => match l with [] => lit "[]" | _ => array l end
   | VTuple l => match l with [] => lit "()" | _ => array l end
   | VSet fz l => match l with [] => if fz then lit "frozenset()" else lit "set()" | _ => array l end
